@@ -57,6 +57,7 @@ def prepare_run(
     elif isinstance(executor, dict):
         executor = executor.copy()  # this dict might be mutated, so we copy it
     validate_slurm_executor(executor, in_async)
+    _validate_executor_names(executor, pipeline)
     _validate_complete_inputs(pipeline, inputs)
     validate_consistent_axes(pipeline.mapspecs(ordered=False))
     _validate_fixed_indices(fixed_indices, inputs, pipeline)
@@ -96,6 +97,37 @@ def _check_parallel(
             names = uses_default_executor if output_name == "" else at_least_tuple(output_name)
             _check_parallel(parallel, {n: store[n] for n in names}, ex)
         return
+
+
+def _validate_executor_names(
+    executor: dict[OUTPUT_TYPE, Executor] | None,
+    pipeline: Pipeline,
+) -> None:
+    """Validate that an executor dictionary names outputs only and covers every function.
+
+    Otherwise the missing executor is only noticed when the function is submitted,
+    after the run folder was written and after earlier generations have run.
+    """
+    if executor is None:
+        return
+    for name in executor:
+        if name != "" and name not in pipeline.output_to_func:
+            msg = (
+                f"The executor key `{name!r}` is not an output name of the pipeline,"
+                f" the output names are `{list(pipeline.output_to_func)}`."
+            )
+            raise ValueError(msg)
+    if "" in executor:
+        return
+    for f in pipeline.functions:
+        if f.output_name not in executor:
+            msg = (
+                f"No executor found for output `{f.output_name}`."
+                f" Please either specify an executor for this output using"
+                f" `executor['{f.output_name}'] = ...`, or provide a default executor"
+                f' using `executor[""] = ...`.'
+            )
+            raise ValueError(msg)
 
 
 def _validate_complete_inputs(pipeline: Pipeline, inputs: dict[str, Any]) -> None:
